@@ -373,7 +373,20 @@ pub struct WriteTxn<'a> {
     inner: nervusdb_storage::engine::WriteTxn<'a>,
 }
 
+/// Buffered state of a [`WriteTxn`] captured by [`WriteTxn::savepoint`].
+pub struct TxnSavepoint(nervusdb_storage::engine::TxnSavepoint);
+
 impl<'a> WriteTxn<'a> {
+    /// Captures the transaction's buffered writes (statement-level rollback point).
+    pub fn savepoint(&self) -> TxnSavepoint {
+        TxnSavepoint(self.inner.savepoint())
+    }
+
+    /// Discards every write buffered after `savepoint` was taken; the transaction stays usable.
+    pub fn rollback_to(&mut self, savepoint: TxnSavepoint) {
+        self.inner.rollback_to(savepoint.0);
+    }
+
     /// Creates a new node with the given external ID and label.
     ///
     /// Returns the internal node ID for use in subsequent operations.
